@@ -156,7 +156,7 @@ FundsMenu(info, fuel, cu) ==
                               \cup {Exec(info.c, f) : f \in SubFunds \ {<<>>}}        \* a contract calling itself
                               \cup {Inst(2, "Lf", "", f, "") : f \in SubFunds}
                               \cup (IF info.c = B THEN {Exec(A, Eth(1))} ELSE {}),
-                        on \in {"never", "error"}}
+                        on \in {"never", "error", "always"}}
                ELSE {})
 FundsCalls(rt, cd, n) ==
     IF n = 0 /\ MaxTx > 1
@@ -172,15 +172,18 @@ GenesisFunds == Genesis0 \o << [call |-> SudoMint("u1", << <<"btc", 1>> >>), sc 
 PrivKeys == {"k", "k1", "k2"}
 PrivWrites(info) == {<<>>} \cup {<< <<key, "v" \o ToString(info.pos)>> >> : key \in PrivKeys} \cup {<< <<"k", "DEL">> >>}
                     \cup {<< <<"k1", "x">>, <<"k2", "y">> >>}
+PrivLeafs(info) == {Beh(FALSE, ws, <<>>, <<>>, NoData, <<>>) : ws \in PrivWrites(info)}
 PrivMenu(info, fuel, cu) ==
-    {Beh(FALSE, ws, <<>>, <<>>, NoData, <<>>) : ws \in PrivWrites(info)}
-    \cup (IF fuel > 1 /\ info.entry # "reply"
-          THEN {Beh(FALSE, ws, <<>>, <<>>, NoData, <<Sub(Exec(t, <<>>), 1, "", on)>>) :
-                    ws \in {<<>>, << <<"k", "p" \o ToString(info.pos)>> >>},
-                    t \in {A, B, C} \ {info.c}, on \in {"never", "error"}}
-          ELSE {})
-    \cup (IF info.entry # "reply" /\ Len(cu.sc) > 0 THEN {BFail} ELSE {})
+    IF Len(cu.call.msgs) > 1 THEN PrivLeafs(info)          \* three calls of the same contract in one transaction
+    ELSE PrivLeafs(info)
+         \cup (IF Len(cu.sc) = 0 /\ fuel > 1
+               THEN {Beh(FALSE, ws, <<>>, <<>>, NoData, <<Sub(Exec(t, <<>>), 1, "", on)>>) :
+                        ws \in {<<>>, << <<"k", "p" \o ToString(info.pos)>> >>},
+                        t \in {A, B, C} \ {info.c}, on \in {"never", "error"}}
+               ELSE {})
+         \cup (IF info.entry # "reply" /\ Len(cu.sc) > 0 THEN {BFail} ELSE {})
 PrivCalls(rt, cd, n) == { ExecuteCall("u1", << Exec(c, <<>>) >>) : c \in {A, B, C} }
+                        \cup (IF n > 0 THEN { ExecuteCall("u1", << Exec(A, <<>>), Exec(A, <<>>), Exec(A, <<>>) >>) } ELSE {})
 
 (* ====================================================================== *)
 (* percode: C08 / C11 with a custom address generator that hands out ONE address per code id:
